@@ -511,7 +511,7 @@ var ID = NewScalar(ScalarConfig{
 		"When expected as an input type, any string (such as `\"4\"`) or integer " +
 		"(such as `4`) input value will be accepted as an ID.",
 	Serialize:  coerceString,
-	ParseValue: coerceString,
+	ParseValue: coerceID,
 	ParseLiteral: func(valueAST ast.Value) interface{} {
 		switch valueAST := valueAST.(type) {
 		case *ast.IntValue:
@@ -522,6 +522,23 @@ var ID = NewScalar(ScalarConfig{
 		return nil
 	},
 })
+
+// coerceID turns a variable value into an ID. Integers arrive from JSON as
+// float64: they are written out in full (as the literal 1000000 would be),
+// not in the exponent form %v gives large floats.
+func coerceID(value interface{}) interface{} {
+	switch value := value.(type) {
+	case float64:
+		if value == math.Trunc(value) && !math.IsInf(value, 0) {
+			return strconv.FormatFloat(value, 'f', -1, 64)
+		}
+	case float32:
+		if f := float64(value); f == math.Trunc(f) && !math.IsInf(f, 0) {
+			return strconv.FormatFloat(f, 'f', -1, 32)
+		}
+	}
+	return coerceString(value)
+}
 
 func serializeDateTime(value interface{}) interface{} {
 	switch value := value.(type) {
